@@ -2556,6 +2556,30 @@ def _move_after_scope(
     return additions, removals
 
 
+def _test_depends_on_start(test: ast.AST, start: ast.AST) -> bool:
+    """Whether a statement that opens the branches of an if must stay behind the test: the test
+    binds a name, or reads a name that the statement binds, deletes or may change in place."""
+    if any(core.walk(test, ast.NamedExpr)):
+        return True
+
+    def root_name(node: ast.AST) -> str | None:
+        while isinstance(node, (ast.Attribute, ast.Subscript, ast.Starred)):
+            node = node.value
+        return node.id if isinstance(node, ast.Name) else None
+
+    changed = {
+        root_name(node)
+        for node in core.walk(start, (ast.Name, ast.Attribute, ast.Subscript))
+        if isinstance(node.ctx, (ast.Store, ast.Del))
+    }
+    changed.update(
+        root_name(node.func.value)
+        for node in core.walk(start, ast.Call)
+        if isinstance(node.func, ast.Attribute)
+    )
+    return any(name.id in changed for name in core.walk(test, ast.Name))
+
+
 @processing.fix
 def breakout_common_code_in_ifs(source: str) -> str:
     root = core.parse(source)
@@ -2569,7 +2593,7 @@ def breakout_common_code_in_ifs(source: str) -> str:
 
         removals = set()
         additions = set()
-        has_namedexpr = any(core.walk(node.test, ast.NamedExpr))
+        has_namedexpr = _test_depends_on_start(node.test, body[0])
         start_branches = [body[0], orelse[0]]
         end_branches = [body[-1], orelse[-1]]
 
@@ -2615,7 +2639,7 @@ def breakout_common_code_in_ifs(source: str) -> str:
 
         removals = set()
         additions = set()
-        has_namedexpr = any(core.walk(node.test, ast.NamedExpr))
+        has_namedexpr = _test_depends_on_start(node.test, body[0])
         start_branches = [body[0], orelse[0]]
         if not has_namedexpr and _is_same_code(*start_branches):
             additions, removals = _move_before_scope(node, start_branches)
